@@ -608,3 +608,14 @@ def killed_attrs(evs: List[Event]) -> Set[str]:
 
 def mentions_any(text: str, names: Set[str]) -> bool:
     return any(re.search(r"(?<![\w.])" + re.escape(n) + r"(?![\w])", text) for n in names)
+
+
+def reachable_nodes(prog, resolver, func, concrete, nodes, assumptions=None, inline=None) -> Optional[Set[int]]:
+    """ids of the watched nodes that some path evaluates under the assumptions (None = analysis failed)."""
+    w = _WatchWalker(prog, resolver, watch=set(nodes), assumptions=assumptions or {}, sticky=set(assumptions or {}),
+                     inline=inline or (lambda f, t, d: False), merge_loops=True)
+    try:
+        w.run(func, concrete)
+    except Exception:
+        return None
+    return {nid for nid, snaps in w.snaps.items() if snaps}
